@@ -82,7 +82,8 @@ def gen_spec(rng, n_max=8, allow_offsets=True, tier="quick", full_frac=0.15):
     s = [0.0, q(rng.uniform(0.01, 0.2), 1024), q(rng.uniform(0.5, 3), 64), q(rng.uniform(20, 80), 16)][s_choice] * scale
     theta = dict(P=P, e=e, omega=q(rng.uniform(0, 6.25), 256), M0=q(rng.uniform(0, 6.25), 256), s=s)
     return dict(n_poly=n_poly, n_off=n_off, data_unit=data_unit, surveys=surveys, kprior=kprior, P_unit=P_unit, P0=P0, lin=lin, offs=offs,
-                sigma_K0=(sigma_K0, sk_unit), max_K=max_K, theta=theta, s_choice=s_choice, nice=nice)
+                sigma_K0=(sigma_K0, sk_unit), max_K=max_K, theta=theta, s_choice=s_choice, nice=nice,
+                err_unit=(("m/s" if data_unit == "km/s" else "km/s") if rng.random() < 0.25 else None))
 
 
 def build_problem(spec):
@@ -102,7 +103,9 @@ def build_problem(spec):
         from astropy.time import Time
 
         kw["t_ref"] = Time(float(spec["t_ref"]), format="mjd", scale="tcb")
-    srcs = [RVData(np.array(s["t"]), np.array(s["rv"]) * du, np.array(s["err"]) * du, **kw) for s in spec["surveys"]]
+    # the uncertainties may be handed over in another velocity unit than the velocities (spec["err_unit"]): same physics
+    eu = u.Unit(spec.get("err_unit") or spec["data_unit"])
+    srcs = [RVData(np.array(s["t"]), np.array(s["rv"]) * du, (np.array(s["err"]) * du).to(eu), **kw) for s in spec["surveys"]]
     data = srcs[0] if spec["n_off"] == 0 else srcs
     with warnings.catch_warnings():
         warnings.simplefilter("ignore")
